@@ -14,8 +14,10 @@ import traceback
 
 VERIF = os.path.dirname(os.path.dirname(os.path.abspath(__file__)))
 KNOWN_FILE = os.path.join(VERIF, 'known_findings.json')
-REPLAY_DIR = os.path.join(VERIF, 'replays')
-EVIDENCE_DIR = os.path.join(VERIF, 'evidence')
+# (the sensitivity suite points these at scratch directories: a run against a
+# mutated copy must not overwrite the evidence of /repo itself)
+REPLAY_DIR = os.environ.get('VERIF_REPLAY_DIR') or os.path.join(VERIF, 'replays')
+EVIDENCE_DIR = os.environ.get('VERIF_EVIDENCE_DIR') or os.path.join(VERIF, 'evidence')
 
 
 class Violation(Exception):
